@@ -84,7 +84,7 @@ func (c *Ctx) prov() *Prov {
 		if callee == nil || len(call.Call.Args) == 0 {
 			return
 		}
-		if k, ok := getKeyOfValue(call.Call.Args[0]); ok && (k == "command" || k == "cmd" || k == "originatingCommand") {
+		if k, ok := getKeyOfValue(call.Call.Args[0]); ok && commandDocKeys[k] {
 			roots[callee] = true
 		}
 	})
@@ -121,6 +121,11 @@ func (c *Ctx) prov() *Prov {
 	}
 	return p
 }
+
+// commandDocKeys: the attributes under which a log line carries a command document - the
+// command itself, the originating command of a getMore, and the command copies attached to
+// error reports / debug lines (attr.cmd, attr.commandArgs).
+var commandDocKeys = map[string]bool{"command": true, "cmd": true, "originatingCommand": true, "commandArgs": true}
 
 // getKeyOfValue: v is (a type assertion of) the value result of Get(m, "K") -> K.
 func getKeyOfValue(v ssa.Value) (string, bool) {
@@ -579,6 +584,14 @@ func (p *Prov) atomOf(cond ssa.Value, pol bool) Atom {
 					}
 				}
 			}
+			// len(x) == c / != c
+			for _, pair := range [][2]ssa.Value{{x.X, x.Y}, {x.Y, x.X}} {
+				if lc, ok := pair[0].(*ssa.Call); ok && calleeKey(&lc.Call) == "builtin len" {
+					if n, ok := constInt(pair[1]); ok {
+						return Atom{Kind: "len", Pol: eq, X: lc.Call.Args[0], Name: fmt.Sprintf("==%d", n), Src: cond}
+					}
+				}
+			}
 			// string constant comparison
 			for _, pair := range [][2]ssa.Value{{x.X, x.Y}, {x.Y, x.X}} {
 				if s, ok := constString(pair[1]); ok {
@@ -879,7 +892,14 @@ func (p *Prov) justify(s *Sink) string {
 		return "J5:shape-mismatch"
 	}
 	if s.Kind == "return" && negContainer >= 2 {
-		return "J5:scalar-stage"
+		// a bare scalar in stage position (outside the grammar: a stage is a document) -
+		// only at the root of a pipeline, i.e. with an empty key path; a scalar operand
+		// further down (an element of $and / $or ...) is a value and must be redacted
+		if has(func(a Atom) bool {
+			return a.Kind == "len" && a.Pol && a.Name == "==0" && a.X != nil && isStringSlice(a.X.Type())
+		}) {
+			return "J5:scalar-stage(empty-path)"
+		}
 	}
 	// J7: selective mode
 	if has(func(a Atom) bool { return a.Kind == "cfg" && a.Pol && a.Name == "redactedFieldsRegexp!=nil" }) {
